@@ -337,11 +337,14 @@ Lemma name_raw_refuted_pinned : exists n, regular_name n = false /\ roundtrips_p
                                    /\ roundtrips (OName n) = true
                                    /\ parse (ser esc_iso (ODict [(n, OInt 1)])) = Some (PDict [(n, PInt 1)]).
 Proof. exists (b "My Image"). vm_compute. repeat split. Qed.
-(** what remains of the name finding after the repair: the reader decodes one char per byte, so a
-    non-ASCII source String (UTF-8 bytes C3 A9 = "é") comes back as the two chars U+00C3 U+00A9 *)
-Lemma name_nonascii_refuted : exists n, wf (OName n) = true /\ ascii_name n = false
+(** RECORD of the reader before fix_name_utf8 ([strview_pinned]: always one char per byte): a
+    non-ASCII source String (UTF-8 bytes C3 A9 = "é") came back as the two chars U+00C3 U+00A9
+    (former finding C09-name-nonascii).  The repaired reader ([strview]) returns the same String;
+    the general statement is Full.ser_parse_roundtrip_strings. *)
+Lemma name_nonascii_refuted_pinned : exists n, wf (OName n) = true /\ ascii_name n = false
                                    /\ parse (ser esc_iso (OName n)) = Some (PName n)
-                                   /\ strview (PName n) = PName [195; 131; 194; 169] /\ n = [195; 169].
+                                   /\ strview_pinned (PName n) = PName [195; 131; 194; 169]
+                                   /\ strview (PName n) = PName n /\ n = [195; 169].
 Proof. exists [195; 169]. vm_compute. repeat split. Qed.
 Lemma int_int_nameR_refuted : exists v, wf v = false /\ parse (ser esc_iso v) = Some (PArr [PRef 1 0]) /\ roundtrips v = false.
 Proof. exists (OArr [OInt 1; OInt 0; OName (b "R")]). vm_compute. repeat split. Qed.
@@ -349,7 +352,13 @@ Lemma real_ge_2p63_refuted : exists v, wf v = false /\ parse (ser esc_iso v) = N
 Proof. exists (OReal false 9223372036854775808000000). vm_compute. repeat split. Qed.
 Lemma objnum_refuted : exists v, wf v = false /\ parse (ser esc_iso v) = Some (PInt 10000000).
 Proof. exists (ORef 10000000 0). vm_compute. repeat split. Qed.
-Lemma incr_nonascii_refuted : exists n, bytes_ok n = true /\ parse (ser_incr (OName n)) = Some (PName [195; 169]) /\ n = [233].
+(** RECORD (former finding C09-incr-nonascii-name): with the Latin-1 reader a parsed name held the byte
+    E9 as the char U+00E9; the incremental writer escapes the UTF-8 form of the String (C3 A9), which the
+    old reader returned as two chars.  With the repaired reader the String "é" (UTF-8 C3 A9) is written
+    /#C3#A9 and read back as "é"; general statement: Full.incr_name_roundtrip_strings. *)
+Lemma incr_nonascii_refuted_pinned : exists n, bytes_ok n = true /\ parse (ser_incr_name_pinned n) = Some (PName [195; 169]) /\ n = [233]
+  /\ strview_pinned (PName [195; 169]) = PName [195; 131; 194; 169]
+  /\ option_map strview (parse (ser_incr (OName [195; 169]))) = Some (PName [195; 169]).
 Proof. exists [233]. vm_compute. repeat split. Qed.
 
 (** non-vacuity: a nested well-formed value over the awkward alphabet does round-trip *)
@@ -366,4 +375,20 @@ Definition sample_names : obj :=
         ODict [(b "a (b) <c> [d] /e %f", OName (b "#")); (b "k 2", OArr [OName (b "x y"); OInt 3])]].
 Example sample_wf_roundtrips : wf sample_names = true /\ wf_pinned sample_names = false /\ ascii_names sample_names = true
   /\ parse (ser esc_iso sample_names) = Some (norm sample_names) /\ strview (norm sample_names) = norm sample_names.
+Proof. vm_compute. repeat split; reflexivity. Qed.
+(** non-ASCII names: 2-, 3- and 4-byte sequences ("é", "中", U+1F600, U+0080, U+FFFF, U+10FFFF), as names and keys *)
+Definition sample_utf8 : obj :=
+  OArr [sample_names; OName [195; 169]; OName [233 - 6; 184; 173; 49]; OName [240; 159; 152; 128];
+        ODict [([99; 97; 102; 195; 169], OName [194; 128]); ([239; 191; 191; 32], OName [244; 143; 191; 191])]].
+Example sample_utf8_roundtrips : wf sample_utf8 = true /\ utf8_names sample_utf8 = true /\ ascii_names sample_utf8 = false
+  /\ option_map strview (parse (ser esc_iso sample_utf8)) = Some (norm sample_utf8)
+  /\ option_map strview_pinned (parse (ser esc_iso sample_utf8)) <> Some (norm sample_utf8).
+Proof. vm_compute. repeat split; try reflexivity. discriminate. Qed.
+(** what the repaired reader makes of name bytes that are NOT UTF-8 (Latin-1 view kept): a lone E9, a
+    truncated C3, the surrogate ED A0 80, the overlong C0 80, F4 90 80 80 (> U+10FFFF), a stray continuation *)
+Example name_string_invalid_examples :
+  name_string [99; 97; 102; 233] = [99; 97; 102; 195; 169] /\ name_string [195] = [195; 131]
+  /\ name_string [237; 160; 128] = [195; 173; 194; 160; 194; 128] /\ name_string [192; 128] = [195; 128; 194; 128]
+  /\ name_string [244; 144; 128; 128] = [195; 180; 194; 144; 194; 128; 194; 128] /\ name_string [128] = [194; 128]
+  /\ name_string [237; 159; 191] = [237; 159; 191] /\ name_string [244; 143; 191; 191] = [244; 143; 191; 191].
 Proof. vm_compute. repeat split; reflexivity. Qed.
